@@ -71,9 +71,16 @@ def register(add):
     # ---- bn_rec_sac: the recoding length must be public (EXPECTED TO FAIL on /repo for cof != 0: finding F-C) -----------------------------------
     XS = lambda f: '%s/%s_xs' % (f, f)
     add('c20x.bn_rec_sac.len', ['C20'], 'bn_rec_sac', sources=[REC], headers=['c20x_sac.h', 'c20x_sac_state.h'], conf='base', route='bounded', unwind=7,
-        flags=['--object-bits', '12'], timeout=600, decls='int8_t *b; size_t *len; bn_t *k; bn_st *u; size_t c, m, n; int cof;', call='bn_rec_sac(b, len, k, u, c, m, n, cof)',
+        flags=['--object-bits', '11'], timeout=600, decls='int8_t *b; size_t *len; bn_t *k; bn_st *u; size_t c, m, n; int cof;', call='bn_rec_sac(b, len, k, u, c, m, n, cof)',
         replace=[XS(f) for f in ('bn_make', 'bn_copy', 'bn_hlv', 'bn_add_dig', 'bn_get_bit', 'bn_bits', 'memset')],
         remove_bodies=['bn_rec_win', 'bn_rec_slw', 'bn_rec_naf', 'bn_rec_tnaf', 'bn_rec_rtnaf', 'bn_rec_jsf', 'bn_rec_glv', 'bn_rec_reg', 'bn_rec_tnaf_get', 'bn_rec_tnaf_mod', 'bn_rec_frb'],
         note='the output length *len is a function of the public n, c, m, bits(u) only; the bit lengths and bits of the subscalars are secret (abstract bn_bits / bn_get_bit); '
              'callees abstract (frames); KNOWN TO FAIL for cof != 0 (bn_rec_sac takes the maximum with bits(k[i]) + 1): postcondition LEN only',
-        bound_note='m <= 2, c = 1, n <= 3, *len <= 5, loops unwound 7 times with unwinding assertions')
+        bound_note='m = 2, c = 1, n <= 3, *len <= 5, loops unwound 7 times with unwinding assertions')
+    add('c20x.bn_rec_sac.len.cof0', ['C20'], 'bn_rec_sac', sources=[REC], headers=['c20x_sac.h', 'c20x_sac_state.h'], defines=['C20X_SAC_COF0'], conf='base', route='bounded', unwind=7,
+        flags=['--object-bits', '11'], timeout=600, decls='int8_t *b; size_t *len; bn_t *k; bn_st *u; size_t c, m, n; int cof;', call='bn_rec_sac(b, len, k, u, c, m, n, cof)',
+        replace=[XS(f) for f in ('bn_make', 'bn_copy', 'bn_hlv', 'bn_add_dig', 'bn_get_bit', 'bn_bits', 'memset')],
+        remove_bodies=['bn_rec_win', 'bn_rec_slw', 'bn_rec_naf', 'bn_rec_tnaf', 'bn_rec_rtnaf', 'bn_rec_jsf', 'bn_rec_glv', 'bn_rec_reg', 'bn_rec_tnaf_get', 'bn_rec_tnaf_mod', 'bn_rec_frb'],
+        note='the output length *len is a function of the public n, c, m, bits(u) only; the bit lengths and bits of the subscalars are secret (abstract bn_bits / bn_get_bit); '
+             'callees abstract (frames); this unit: cof == 0 only (curves with a cofactor), where the clause holds',
+        bound_note='m = 2, c = 1, n <= 3, *len <= 5, loops unwound 7 times with unwinding assertions')
